@@ -7,6 +7,8 @@ import (
 	"regexp"
 	"strings"
 
+	"github.com/go-openapi/spec"
+
 	"verifharness/core"
 	"verifharness/gen"
 	"verifharness/oracle"
@@ -40,7 +42,7 @@ func c02NumCases(env *core.Env) int {
 	if env.Thorough() {
 		return structuredWorlds(env) + 60000
 	}
-	return structuredWorlds(env) + 2500
+	return structuredWorlds(env) + 10000
 }
 
 // worldCase derives the world and options of case idx (shared by C02, C03, C08, C09).
@@ -121,9 +123,18 @@ func worldNonTrivial(w *gen.World, acyclic bool) bool {
 	return w.Features["cross-document-ref"] > 0 || !acyclic
 }
 
+func c02Total(env *core.Env) int { return c02NumCases(env) + c09TwinWorlds }
+
 func c02Run(env *core.Env, idx int) core.CaseResult {
 	var res core.CaseResult
-	w, _, rng := worldCase(env, "C02", idx)
+	var w *gen.World
+	var rng *rand.Rand
+	if idx >= c02NumCases(env) {
+		// the same relative $ref text written in documents of two directories
+		w, rng = twinTextWorld(idx-c02NumCases(env)), core.Rng(0, "C02/twin", idx)
+	} else {
+		w, _, rng = worldCase(env, "C02", idx)
+	}
 	o := expandOpts{Absolute: rng.Intn(2) == 0, KeepResolutions: true}
 	in := oworld(w)
 	starts := oracle.SpecStarts(in, w.Root, true)
@@ -215,8 +226,75 @@ func worldFloors(env *core.Env) []string {
 
 // ---------------------------------------------------------------- C03
 
+// denormBases / denormTargets: the pure rewriting of a kept $ref relative to the root document (hook H5), enumerated.
+var denormBases = []string{"file:///w/a/root.json", "file:///root.json", "file:///w/a/b/c/root.json", "http://h.example/d/root.json", "https://s.example:8443/x/root.json",
+	"file:///w/a/root.json2", "file:///w/sp%20ace/root.json"}
+
+func denormTargets(base string) []string {
+	var out []string
+	for _, p := range []string{"/w/a/root.json", "/w/a/x.json", "/w/a/root.json2", "/w/a/root", "/w/a/s/x.json", "/w/x.json", "/x.json", "/w/b/c/x.json", "/w/a/b/c/root.json", "/w/a/b/x.json",
+		"/w/sp%20ace/root.json", "/w/sp%20ace/x.json", "/w/a/é.json", "/root.json", "/w/a/b/c/d/e.json", "/x/root.json", "/d/root.json", "/d/e/f.json"} {
+		for _, host := range []string{"file://", "http://h.example", "https://s.example:8443", "http://other.example"} {
+			for _, frag := range []string{"#/definitions/d0", "#/definitions/a~1b/properties/c%20d", ""} {
+				out = append(out, host+p+frag)
+			}
+		}
+	}
+	return out
+}
+
+const c03DenormCases = 7 // one per base
+
+func c03Denorm(env *core.Env, k int) core.CaseResult {
+	var res core.CaseResult
+	base := denormBases[k]
+	res.Hash = "denormalize/" + base
+	res.NonTrivial = true
+	bu, _ := oracle.RefTarget(base, "")
+	n := 0
+	for _, t := range denormTargets(base) {
+		want, err := oracle.RefTarget(base, t)
+		if err != nil {
+			continue
+		}
+		// the residual of the prefix rule pinned by the package's own test: a document *below* the root document's path
+		if strings.HasPrefix(want.Doc, bu.Doc+"/") {
+			continue
+		}
+		ref, err := spec.NewRef(t)
+		if err != nil {
+			continue
+		}
+		var got spec.Ref
+		_, pan := guard(func() error { got = spec.VerifDenormalizeRef(&ref, base, ""); return nil })
+		res.Evals++
+		n++
+		wit := map[string]interface{}{"root_location": base, "absolute_ref": t, "rewritten": got.String()}
+		if pan != "" {
+			res.Violate("denormalizeRef-panic", pan, wit)
+			continue
+		}
+		back, err := oracle.RefTarget(base, got.String())
+		if err != nil || !oracle.SameURL(back.Doc, want.Doc) || back.Ptr != want.Ptr {
+			res.Violate("rewritten-ref-designates-another-target", fmt.Sprintf("%q rewritten relative to %q is %q, which designates %s instead of %s", t, base, got.String(), back, want), wit)
+			continue
+		}
+		if want.Doc == bu.Doc && want.Ptr != "" && !isFragmentOnly(got.String()) {
+			res.Violate("rewritten-ref-into-root-not-fragment-only", fmt.Sprintf("%q relative to %q is %q", t, base, got.String()), wit)
+		}
+	}
+	res.Count("denormalize-pairs", n)
+	res.Sample = map[string]interface{}{"root_location": base, "pairs": n}
+	return res
+}
+
+func c03NumCases(env *core.Env) int { return c02NumCases(env) + c03DenormCases }
+
 func c03Run(env *core.Env, idx int) core.CaseResult {
 	var res core.CaseResult
+	if idx >= c02NumCases(env) {
+		return c03Denorm(env, idx-c02NumCases(env))
+	}
 	w, _, rng := worldCase(env, "C03", idx)
 	o := expandOpts{Absolute: rng.Intn(2) == 0}
 	in := oworld(w)
@@ -292,7 +370,7 @@ func init() {
 		Rule: "G-WORLD: 1-5 documents in different directories/hosts, colliding element names, unique marker per node; structured part = one world per ($ref form x directory relation) cell x k; random part = seeded worlds " +
 			"(cycles, nested targets, $ref siblings, escaped names, prefix-named documents, whole-document refs); each world expanded R times (map order) with AbsoluteCircularRef on/off; " +
 			"monitor = bisimulation (O-DEN) of every definition/parameter/response/path item between input world and input-with-root-replaced-by-output. non-trivial = cross-document $ref or cycle; distinct by world content",
-		NumCases: c02NumCases,
+		NumCases: c02Total,
 		Run:      c02Run,
 		Floors:   worldFloors,
 		Assumptions: []string{"no id keyword, no $ref siblings on non-schema holders; parameter/response/path-item chains across documents (open finding F8) are exercised separately (stratum B)",
@@ -302,11 +380,12 @@ func init() {
 		ID:    "C03",
 		Level: "exploration",
 		Rule: "same worlds as C02; monitor = every $ref left at a schema/parameter/response/path-item position resolves from the root location to a node on an input reference cycle (O-CYC); none in acyclic worlds, " +
-			"acyclic outputs byte-identical over R runs; surface form absolute / fragment-only as the option demands. non-trivial = world has a cycle or >= 3 $refs",
-		NumCases: c02NumCases,
+			"acyclic outputs byte-identical over R runs; surface form absolute / fragment-only as the option demands; plus the pure rewriting of kept $refs (hook H5 denormalizeRef) over an enumerated set of " +
+			"root locations x absolute targets: the rewritten text must designate the same target from the root location. non-trivial = world has a cycle or >= 3 $refs",
+		NumCases: c03NumCases,
 		Run:      c03Run,
 		Floors: func(env *core.Env) []string {
-			return append(worldFloors(env)[:8], "kept-refs", "kept.absolute-form", "kept.into-root", "kept.into-other-document", "world.acyclic", "world.cyclic")
+			return append(worldFloors(env)[:8], "kept-refs", "kept.absolute-form", "kept.into-root", "kept.into-other-document", "world.acyclic", "world.cyclic", "denormalize-pairs")
 		},
 		Assumptions: []string{"surface form is checked in the weak reading: fragment-only is required for targets inside the root document, other targets may be relative or absolute"},
 	})
